@@ -25,6 +25,11 @@ def scenarios(tier):
     S.append(scenario('collupd_np3_gs', dict(NP=3, MAXITER=2, TEND=12, ENDDEP=True, JAC=False), view='view', explore=800))
     S.append(scenario('ml2_np3', dict(NP=3, NL=2, NSW=[1, 1], MAXITER=2, PRED='pfasst_burnin', TEND=20), view='view',
                       rs=(False, True), explore=1000, constraints=['nblk <= 2']))
+    # forced stops and forced continuation at arbitrary (step, iteration) positions: a step that is told to stop still starts from
+    # its predecessor's FINAL end value
+    S.append(scenario('fd_np3', dict(NP=3, MAXITER=2, TEND=12), fd=(False, True), view='view', explore=1200, mc_workers=8))
+    S.append(scenario('fd_np2_gs_collupd', dict(NP=2, MAXITER=3, TEND=8, JAC=False, ENDDEP=True), fd=(False, True), view='view',
+                      explore=800, mc=False))
     # TLC-generated behaviours replayed on the code
     S.append(scenario('gen_np2_rs', dict(NP=2, MAXITER=1, TEND=8, DT0=4, MAXR=1), rs=(False, True), dtm=(0, 1), view='view',
                       constraints=['nblk <= 2'], gen='all'))
